@@ -84,6 +84,44 @@ def fixed_logs():
     ]
 
 
+ALL_TYPES = TIMED + UNTIMED
+CLASS_TYPES = [POSE, GNSS_INFO, IMU, EVENT, VERSION]
+# message type values that never occur in the generated logs, spread over the whole 16-bit range
+ABSENT_TYPES = [1, 7, 300, 2000, 9999, 10002, 10003, 10004, 10005, 10006, 10007, 11001, 11002, 11003, 11004, 11005, 11101, 11102, 11103,
+                11104, 11105, 12000, 12003, 12005, 12010, 12011, 13000, 13001, 13002, 13100, 13101, 13102, 13200, 13201, 13202, 13220,
+                14000, 14001, 14004, 14005, 20000, 25000, 30000, 35000, 40000, 45000, 50000, 55000, 60000, 60500, 61000, 62000, 63000, 64000, 65000]
+
+
+def rich_log(rng, n):
+    """all seven message types present, several messages of each, non-decreasing P1 times"""
+    spec = []
+    t8 = rng.choice([80, 83, 800])
+    for i in range(n):
+        ty = ALL_TYPES[i % len(ALL_TYPES)] if i < 2 * len(ALL_TYPES) else rng.choice(ALL_TYPES)
+        if ty in TIMED:
+            t8 += rng.choice([0, 1, 4, 8])
+            spec.append(['m', ty, i % 2, t8])
+        else:
+            spec.append(['m', ty, i % 2, None])
+    return spec
+
+
+def type_requests(rng, present, sizes=None):
+    """type filters of every size: some present types (at least one present type is always left out) plus absent
+    types spread over the 16-bit range; container forms and duplicates as the API accepts them"""
+    out = []
+    sizes = sizes or [1, 2, 3, 5, 8, 11, 12, 13, 14, 15, 16, 17, 18, 20, 22, 24, 27, 30, 35, 40]
+    for k in sizes:
+        npres = rng.randint(0, min(k, max(0, len(present) - 1)))
+        ts = rng.sample(present, npres) + rng.sample(ABSENT_TYPES, min(k - npres, len(ABSENT_TYPES)))
+        rng.shuffle(ts)
+        form = rng.choice(['set', 'set', 'list', 'tuple', 'mixed'])
+        if form in ('list', 'tuple') and ts and rng.random() < 0.5:
+            ts = ts + rng.sample(ts, min(len(ts), rng.randint(1, 3)))      # duplicates in the request
+        out.append((ts, form))
+    return out
+
+
 def late_source_log(rng, n=None):
     """more than populate_count messages of one type; a source id that first appears after them"""
     spec = []
